@@ -2,6 +2,7 @@
 package c38
 
 import (
+	"runtime"
 	"context"
 	"encoding/json"
 	"fmt"
@@ -285,7 +286,14 @@ func resubCase(c *kit.Case) {
 	const ch = "c38:resub"
 	var mo centrifuge.ChannelMediumOptions
 	mo.KeepLatestPublication = r.Bool()
-	delay := time.Duration(kit.Pick(r, []int{0, 5, 10, 20})) * time.Millisecond
+	// No broadcast delay here: with one, the medium's writer takes timers from the library's
+	// process-wide timer pool, and this real-time case shares its process with virtual-time bubbles
+	// (a pooled timer that was created inside a bubble must not be touched from outside one; the
+	// runner flushes the pool after every bubble, this avoids depending on that).
+	_ = kit.Pick(r, []int{0, 5, 10, 20})
+	delay := time.Duration(0)
+	runtime.GC()
+	runtime.GC()
 	centrifuge.VerifSetMediumInternals(&mo, true, 0, int64(delay))
 	node, _ := w.NewNode(centrifuge.Config{
 		ClientStaleCloseDelay:   time.Hour,
@@ -431,7 +439,7 @@ func TestC38(t *testing.T) {
 	kit.Main(t, kit.Spec{
 		ID:     "C38",
 		Level:  "fault_enumeration",
-		Rule: "1 of 100 cases (real time): the last subscriber of a channel with a queueing medium (broadcast delay 0-20 ms) leaves, another joins 100-800 ms later, publications every 2-15 ms until 1.6 s after the leave (across the deferred job at ~1 s): afterwards the node must still hold a medium for the channel (structural, timing-free), and without a broadcast delay the new, non-positioned subscriber must have received every publication published after its subscribe reply, in order, once (with a delay the medium conflates by design and delivery is not judged). 1 of 5 cases: tail loss under SharedPositionSync: one positioned subscriber, a few delivered publications, then 0-3 more positioned subscribers joining 1.1-2.6 s apart (so that their periodic checks fall into different seconds; periodic tick 1 s, position check delay 2-5 s), a quiet period of two check rounds (2 x (delay + 1 s) + 0.5-3.5 s) so that the periodic checks are in their steady rhythm, then the last publication is lost in PUB/SUB and nothing follows; every subscription must be told (unsubscribe 2500 / disconnect 3010) within 3 x (delay + 1 s) + 3 s. 3 of 5 cases: the C01 scenario and oracle (positioned subscribers, racing publishes inside the subscribe windows, PUB/SUB faults, recovery, bounded progress after faults stop) with the channel medium enabled in a seeded combination of KeepLatestPublication / SharedPositionSync / queue / queue size; 1 of 5 cases: non-positioned subscribers behind a medium with queue and broadcast delay must receive publications in production order, each at most once. " +
+		Rule: "1 of 100 cases (real time): the last subscriber of a channel with a queueing medium leaves, another joins 100-800 ms later, publications every 2-15 ms until 1.6 s after the leave (across the deferred job at ~1 s): afterwards the node must still hold a medium for the channel (structural, timing-free), and without a broadcast delay the new, non-positioned subscriber must have received every publication published after its subscribe reply, in order, once (with a delay the medium conflates by design and delivery is not judged). 1 of 5 cases: tail loss under SharedPositionSync: one positioned subscriber, a few delivered publications, then 0-3 more positioned subscribers joining 1.1-2.6 s apart (so that their periodic checks fall into different seconds; periodic tick 1 s, position check delay 2-5 s), a quiet period of two check rounds (2 x (delay + 1 s) + 0.5-3.5 s) so that the periodic checks are in their steady rhythm, then the last publication is lost in PUB/SUB and nothing follows; every subscription must be told (unsubscribe 2500 / disconnect 3010) within 3 x (delay + 1 s) + 3 s. 3 of 5 cases: the C01 scenario and oracle (positioned subscribers, racing publishes inside the subscribe windows, PUB/SUB faults, recovery, bounded progress after faults stop) with the channel medium enabled in a seeded combination of KeepLatestPublication / SharedPositionSync / queue / queue size; 1 of 5 cases: non-positioned subscribers behind a medium with queue and broadcast delay must receive publications in production order, each at most once. " +
 			"Non-trivial = at least one subscription incarnation observed; signature = fault mode x medium options x per-incarnation outcome.",
 		Assumptions: []string{
 			"broadcast delay is only combined with non-positioned subscribers, as documented",
